@@ -493,7 +493,7 @@ func c02configs(tier string) []cfg {
 	qs := []string{"flag", "items", "thing", "maybe"}
 	envFor := map[string][]string{
 		"flag":  {"flag++"},
-		"items": {"reorder", "insert", "delete", "edit"},
+		"items": {"reorder", "insert", "delete", "edit", "clear"},
 		"thing": {"union-switch", "union-null", "union-plain"},
 		"maybe": {"maybe-toggle", "flag++"},
 	}
@@ -519,6 +519,8 @@ func c02configs(tier string) []cfg {
 		cfg{Client: []string{"S:a:flag"}, Env: []string{"flag++"}, Spawn: true},
 		cfg{Client: []string{"S:a:slow", "U:a", "S:a:slow"}, Env: []string{"flag++"}},
 		cfg{Client: []string{"S:a:slow"}, Env: []string{"flag++", "flag++"}},
+		// a list that becomes empty, and non-empty again
+		cfg{Client: []string{"S:a:items"}, Chain: []string{"clear", "insert", "clear"}},
 		// a mutation that re-uses the id of a live subscription, then the unsubscribe
 		cfg{Client: []string{"S:a:flag", "M:a:3", "U:a"}, Env: []string{"flag++"}},
 		cfg{Client: []string{"S:a:items", "M:a:3", "U:a", "E"}, Env: []string{"edit"}},
